@@ -63,6 +63,15 @@ Next == x' = x
             jobs.append({"fe": rnd.choice(corpus.FES), "rate": 44100, "bps": rnd.choice([8, 16, 24, 32]), "channels": ch,
                          "opts": {"block_size": bs, "max_lpc": rnd.choice([-1, 8]), "max_po": rnd.choice([0, 5, 15]), "padding": -1, "seektable": "none"},
                          "pcm": {"signal": sig, "seed": rnd.randint(1, 10 ** 6), "frames": length}, "tag": "constant"})
+    # ... and as ONE block of every length around the multiples of 256 (the partition coder's length-dependent shortcuts: an all-zero
+    # partition of any length costs the 9-bit escape, not a bit per residual), with and without LPC to rescue the block
+    for length in ([257, 258, 261, 262, 263, 513, 1029, 4098, 4100, 4102, 8193, 65281] if t == "quick"
+                  else sorted(set(list(range(250, 270)) + list(range(508, 520)) + list(range(4090, 4106)) + [8193, 8197, 16389, 65281, 65285]))):
+        for sig in ("const", "consthi", "constm1"):
+            for lpc in (-1, 8):
+                jobs.append({"fe": rnd.choice(corpus.FES), "rate": 44100, "bps": rnd.choice([8, 16, 24]), "channels": rnd.choice([1, 2]),
+                             "opts": {"block_size": 65535, "max_lpc": lpc, "max_po": rnd.choice([0, 5, 15]), "padding": -1, "seektable": "none"},
+                             "pcm": {"signal": sig, "seed": rnd.randint(1, 10 ** 6), "frames": length}, "tag": "constant"})
     # a constant block after a history of incompressible blocks (the choice for a block must not depend on the blocks before it)
     for bs in (16, 64, 256):
         for k in (1, 3, 8, 9, 10, 13, 17, 40):
